@@ -523,7 +523,7 @@ def run_case(ctx, i):
   all_dnas = []
   if is_puppet(cfg):
     if spec.space_size > 0 and spec.space_size <= 64:
-      all_dnas = list(pg.iter_dna(spec))
+      all_dnas = list(spec.iter_dna())
     else:
       r2 = random.Random(rng.random())
       all_dnas = [pg.random_dna(spec, r2) for _ in range(8)]
